@@ -118,6 +118,12 @@ def check_c13(prop, tier):
                         for k in range(1, B["K"] + 1):
                             cfgs.append(D.Config("TwoLevel",
                                                  (period, bs, st, traj), n, k))
+    # long blocks with a two-digit number of units (arguments of the step
+    # planner whose decimal digits can be split in two ways)
+    for per, bs in ((1000, 14), (1000, 15), (1000, 16), (1000, 24),
+                    (817, 14), (1500, 16), (1500, 21)):
+        cfgs.append(D.Config("TwoLevel", (per, bs, "RAM", "maximum"), per, 1))
+    cfgs.append(D.Config("TwoLevel", (1000, 15, "DISK", "revolve"), 2200, 1))
 
     # siblings (same n and period; units, storage, trajectory, passes vary) are
     # evaluated by one worker back to back, in both orders
@@ -268,8 +274,16 @@ def check_c14(prop, tier):
             nsplit = 0
             rams = range(0, s + 1) if gi < n_small else \
                 (0, 1, s // 3, s // 2, s - 1)
-            for ram in rams:
-                cfg = D.Config("Multistage", (ram, s - ram, traj), n)
+            # small groups once more with the integers handed over as numpy
+            # scalars (signed and unsigned: -k of an unsigned wraps), 0-d
+            # arrays
+            variants = [(ram, False) for ram in rams]
+            if gi < n_small and n <= 9:
+                variants += [(ram, fl) for ram in rams
+                             for fl in ("int64", "uint64", "uint8", "uint32a",
+                                        "array0")]
+            for ram, fl in variants:
+                cfg = D.Config("Multistage", (ram, s - ram, traj), n, 1, fl)
                 p = c14_profile(cfg)
                 nsplit += 1
                 if p is None:
@@ -389,6 +403,43 @@ def mixed_stream(cfg, forced):
     finally:
         mixed.numba = saved
     return run
+
+
+def mixed_pair(a, b, only_k=None):
+    """Two Mixed objects alive at once with the tabulated path forced on.
+    Returns ((k, message) or None, executions)."""
+    (na, sa), (nb, sb) = a, b
+    mixed = common.repo_mod("mixed")
+    ca = D.Config("Mixed", (sa, "DISK"), na)
+    cb = D.Config("Mixed", (sb, "RAM"), nb)
+    ref_a = [norm_action(x) for x in mixed_stream(ca, False).actions]
+    ref_b = [norm_action(x) for x in mixed_stream(cb, False).actions]
+    bad = None
+    nexec = 0
+    saved = mixed.numba
+    mixed.numba = object()
+    try:
+        ks = range(0, len(ref_a) + 1) if only_k is None else [only_k]
+        for k in ks:
+            nexec += 1
+            try:
+                with common.quiet():
+                    A = D.build(ca)
+                    got_a = [norm_action(next(A)) for _ in range(k)]
+                    B2 = D.build(cb)
+                    got_b = [norm_action(x) for x in B2]
+                    got_a += [norm_action(x) for x in A]
+            except Exception as e:  # noqa: BLE001
+                bad = (k, f"{type(e).__name__}: {e}")
+                break
+            if got_a != ref_a or got_b != ref_b:
+                who = "first" if got_a != ref_a else "second"
+                bad = (k, f"the {who} object's stream differs from its "
+                          "memoised-path stream")
+                break
+    finally:
+        mixed.numba = saved
+    return bad, nexec
 
 
 def check_c16(prop, tier):
@@ -540,6 +591,38 @@ def check_c16(prop, tier):
                     "config": cfg.as_json()})
                 res.violation({"cls": "Mixed", "code": "stream_differs"},
                               f"{cfg!r}: {bad}", rp)
+    # ---- two Mixed objects alive at once on the tabulated path: A takes k
+    #      actions, B is built and driven to the end, A continues (every k);
+    #      both streams must be what the memoised path gives for them alone
+    #      (a table that is a view of a shared buffer only shows here)
+    small = [(n, s) for n in range(2, (8 if tier == "quick" else 11))
+             for s in range(1, min(n, 4) + 1)]
+    pair_tasks = [(a, b) for a in small for b in small]
+
+    def pair_worker(idxs):
+        out = []
+        for i in idxs:
+            bad, nexec = mixed_pair(pair_tasks[i][0], pair_tasks[i][1])
+            out.append((i, bad, nexec))
+        return out
+    npair = 0
+    for part in common.pmap(pair_worker, len(pair_tasks)):
+        for i, bad, nexec in part:
+            npair += nexec
+            res.add(evaluations=nexec, transitions=nexec,
+                    traces_validated_against_impl=2 * nexec)
+            if bad:
+                (na, sa), (nb, sb) = pair_tasks[i]
+                rp = common.write_replay(prop, "Mixed_pair_differs", {
+                    "property": prop, "kind": "c16_pair",
+                    "a": [na, sa], "b": [nb, sb], "k": bad[0]})
+                res.violation({"cls": "Mixed", "code": "pair_stream_differs"},
+                              f"tabulated path: Mixed({na}, {sa}) takes "
+                              f"{bad[0]} action(s), then Mixed({nb}, {sb}) is "
+                              f"built and driven to the end, then the first "
+                              f"continues: {bad[1]}", rp)
+    res.counters["interleaved_pairs_on_tabulated_path"] = npair
+
     res.cov["distinct_nontrivial"] = nontriv
     res.cov["rule"] = ("every table entry (n_i<=n, s_i<=n-1) of "
                        "mixed_steps_tabulation(n, n-1) against "
@@ -802,6 +885,11 @@ def replay(prop, payload):
                            if p["label"].get(d) == "DISK")
             nram = sum(1 for v in p["label"].values() if v == "RAM")
             bad = disk_acc != sum(sorted(a)[:npos - kk]) or nram > cfg.params[0]
+    elif k == "c16_pair":
+        b_, _n = mixed_pair(tuple(payload["a"]), tuple(payload["b"]),
+                            payload["k"])
+        print(payload, b_)
+        bad = b_ is not None
     elif k == "c16_stream" and cfg.N > 2000:
         mixed = common.repo_mod("mixed")
         heads = []
